@@ -315,7 +315,8 @@ def _run(ctx, cuqi, M, thorough, rng, ckpath):
             elif r < 0.86:
                 ops.append("reinit")
             elif r < 0.90:
-                ops.append("badload")
+                # a key that is no attribute at all, or an attribute of the sampler that is not a state key
+                ops.append(rng.choice(["badload", "badload:initial_point", "badload:_samples", "badload:_acc", "badload:_is_initialized"]))
             else:
                 ops.append("get")
         ops.append("get")
@@ -343,11 +344,12 @@ def _run(ctx, cuqi, M, thorough, rng, ckpath):
                     s = f
                 elif op == "loadsame":
                     s.load_checkpoint(ckpath)
-                elif op == "badload":
+                elif isinstance(op, str) and op.startswith("badload"):
                     import pickle
                     bad = ckpath + ".bad"
+                    bkey = op.split(":")[1] if ":" in op else "not_a_state_key"
                     with open(bad, "wb") as fh:
-                        pickle.dump({"metadata": {"sampler_type": s.__class__.__name__}, "state": {"not_a_state_key": 0}}, fh)
+                        pickle.dump({"metadata": {"sampler_type": s.__class__.__name__}, "state": {bkey: getattr(s, bkey, 0)}}, fh)
                     try:
                         s.load_checkpoint(bad)
                         out.append("accepted")
@@ -414,8 +416,8 @@ def _run(ctx, cuqi, M, thorough, rng, ckpath):
         if api and rng.random() < 0.12:
             scale = None          # `_validate_initialization` rejects the configuration
         for o in ops:
-            if isinstance(o, str) and o in api_hist:
-                api_hist[o] += 1
+            if isinstance(o, str) and o.split(":")[0] in api_hist:
+                api_hist[o.split(":")[0]] += 1
         api_hist["x0=None"] += int(x0 is None); api_hist["scale=None"] += int(scale is None)
         lines.append(f"exp toy {'N%d' % dim if x0 is None else ':'.join(map(str, x0))} {'N' if scale is None else scale} {';'.join(op_str(o) for o in ops)} {','.join(map(str, stream))}")
         cases.append((dim, x0, scale, stream, ops))
